@@ -977,29 +977,34 @@ func scenStaleQueueReelection(e *engineA) error {
 	base, _ := l.info(false)
 	k := base.LastLogIndex + 1
 	e.rc.emit(&ev.Rec{K: "fault", Op: "isolate-leader-with-pending-update", Nid: l.nid, Idx: k})
-	e.isolate(l, true)
-	for i := 0; i < 1+e.rng.Intn(2); i++ {
-		go e.cl.fsmOp(2, l, "update")
-	}
 	fs := e.others(l)
+	// the next leader is separated from the third node the moment it is
+	// elected: its entry at k will not be committed
 	var n, o *Node
-	if !e.waitFor(100, func() bool {
-		for i, f := range fs {
-			if info, ok := f.info(false); ok && info.State == raft.Leader {
-				n, o = f, fs[1-i]
-				return true
+	var nset int32
+	e.rc.onNodeEvent = func(dir string, r *ev.Rec) {
+		if r.K == "state" && r.St != nil && r.St.State == "L" && dir != l.dir && atomic.CompareAndSwapInt32(&nset, 0, 1) {
+			for i, f := range fs {
+				if f.dir == dir {
+					n, o = f, fs[1-i]
+				}
+			}
+			if n != nil {
+				e.net.Cut(n.label, o.label, true)
+				e.net.Cut(o.label, n.label, true)
 			}
 		}
-		return false
-	}) {
+	}
+	e.isolate(l, true)
+	go e.cl.fsmOp(2, l, "update") // exactly one: the re-elected leader's no-op must land right behind it
+	if !e.waitFor(100, func() bool { return atomic.LoadInt32(&nset) == 1 }) || n == nil {
+		e.rc.onNodeEvent = nil
 		return fmt.Errorf("no second leader")
 	}
 	e.waitFor(40, func() bool {
 		info, ok := l.info(false)
 		return ok && info.State != raft.Leader
 	})
-	// the new leader can no longer commit with o ...
-	e.cutBoth(n, o, true)
 	// ... and the moment its entry at k reaches l, l is cut off from it again
 	var got int32
 	e.rc.onNodeEvent = func(dir string, r *ev.Rec) {
